@@ -53,6 +53,8 @@ def _run_entry(prop, entry, baseline_keys):
             mod.run(facts, R)
         except mir.AnchorMissing as e:
             R.bad("anchor-resolution", "<crate>", "anchor", str(e))
+        except Exception as e:
+            R.bad("anchor-resolution", "<crate>", "rule-shape:" + type(e).__name__, str(e))
         new = [v for v in R.violations if v["key"] not in baseline_keys]
         return entry, "ran", new
     finally:
